@@ -813,6 +813,8 @@ func init() {
 			out = append(out, Inst{Pkg: "knx", Fn: "HarnessC13Quota", Args: []int64{ns, per, nb, pause, wait}, Ctx: ctx, MaxSched: 20000,
 				Note: "quota per goroutine already inside Send; sync.Mutex hands over FIFO (starvation mode); wait -1 = symbolic"})
 		}
+		out = append(out, Inst{Pkg: "knx", Fn: "HarnessC13QuotaLost", Args: []int64{4, 4, 5, 30}, Ctx: 3, MaxSched: 20000, Note: "the goroutine repeating lost telegrams is a sender like any other: one further repetition at most once a busy indication is taken in"},
+			Inst{Pkg: "knx", Fn: "HarnessC13QuotaLost", Args: []int64{3, 65535, 0, 60}, Ctx: 3, MaxSched: 20000})
 		quota(2, 2, 1, 5, -1, 2)
 		quota(2, 1, 2, 20, -1, 2)
 		quota(2, 2, 1, 5, 30, 3)
@@ -832,10 +834,10 @@ func init() {
 		Solver:   "cvc5",
 		Quick:    func(l *loaded) []Inst { return c13(false) },
 		Thorough: func(l *loaded) []Inst { return c13(true) },
-		Covers:   []string{"C13.end", "C13.cap.end", "C02.ind.end", "C13.quota.end", "C13.quota.transmission_after_busy"},
-		Bounds:   "real serve goroutine and 1..2 (thorough 3) sender goroutines x 1..2 messages, 0..2 busy indications handed in at every point of the interleaving (context bound 2..3), pause in {0,5,20} ms, wait in {0,10,30,60,100,500} ms on the virtual clock (lower-bound semantics: goroutines take no time, timers fire exactly at their deadline); the 50 ms cap and the resume obligation with a fully symbolic 16-bit wait time, control word and random part; the per-goroutine quota (every transmission between the instant the indication is taken in and the instant the server goroutine owns the send lock belongs to a Send call entered before, at most one per goroutine; silence for min(wait, 50 ms) afterwards) with 2 (thorough 3) senders x 1..2 messages, 1..2 indications, wait time concrete or fully symbolic (16 bits), the order of arrival at the lock being part of the explored interleaving",
+		Covers:   []string{"C13.end", "C13.cap.end", "C02.ind.end", "C13.quota.end", "C13.quota.transmission_after_busy", "C13.quotalost.end", "C13.quotalost.repetition_after_busy"},
+		Bounds:   "real serve goroutine and 1..2 (thorough 3) sender goroutines x 1..2 messages, 0..2 busy indications handed in at every point of the interleaving (context bound 2..3), pause in {0,5,20} ms, wait in {0,10,30,60,100,500} ms on the virtual clock (lower-bound semantics: goroutines take no time, timers fire exactly at their deadline); the 50 ms cap and the resume obligation with a fully symbolic 16-bit wait time, control word and random part; the per-goroutine quota (every transmission between the instant the indication is taken in and the instant the server goroutine owns the send lock belongs to a Send call entered before, at most one per goroutine; silence for min(wait, 50 ms) afterwards) with 2 (thorough 3) senders x 1..2 messages, 1..2 indications, wait time concrete or fully symbolic (16 bits), the order of arrival at the lock being part of the explored interleaving; the same quota for the goroutine that repeats 3..4 lost telegrams when a busy indication meets the repetitions at every point of the interleaving",
 		Outside:  "8 senders and bursts of 200; the clause 'at most one further transmission per goroutine already inside Send' is decided under FIFO hand-off of sync.Mutex only (what the runtime guarantees once a waiter has waited 1 ms, starvation mode); with barging allowed (normal mode, first millisecond) a goroutine that re-enters Send can overtake the waiting server goroutine - HarnessC13Quota with a sixth argument shows that counterexample - so the clause cannot hold for any implementation on a plain mutex and is not claimed there; all other obligations use the weakest mutex contract (any waiter or newcomer may win)",
-		Assume:   []string{"sync.Mutex: any waiter or newcomer may win an unlocked mutex (all obligations but the quota)", "HarnessC13Quota only: a free sync.Mutex goes to the goroutine that arrived at Lock first (FIFO hand-off, starvation mode)", "time.AfterFunc/Sleep are engine primitives on the virtual clock"},
+		Assume:   []string{"sync.Mutex: any waiter or newcomer may win an unlocked mutex (all obligations but the quota)", "HarnessC13Quota only: a free sync.Mutex goes to the goroutine that arrived at Lock first (FIFO hand-off, starvation mode)", "time.AfterFunc/Sleep are engine primitives on the virtual clock", "math/rand.Intn/Int63n/Int31n: an arbitrary value in [0, n)"},
 	})
 
 	c09 := func(thorough bool) []Inst {
